@@ -157,7 +157,7 @@ HEADER = """import enum
 from dataclasses import dataclass, field
 from datetime import date
 from pathlib import PurePosixPath
-from typing import Annotated, Any, Final, List, Optional, Tuple, Union
+from typing import Annotated, Any, Dict, Final, List, Optional, Tuple, Union
 from mashumaro import DataClassDictMixin
 from mashumaro.config import (BaseConfig, TO_DICT_ADD_OMIT_NONE_FLAG, TO_DICT_ADD_BY_ALIAS_FLAG,
                               ADD_DIALECT_SUPPORT, ADD_SERIALIZATION_CONTEXT)
@@ -697,12 +697,15 @@ class DcField:
     alias: str | None
     omit: bool
     many: bool = False        # List[<class>] with default_factory=list
+    mapping: bool = False     # Dict[str, <class>] with default_factory=dict
 
     def ty(self, prefix: str) -> str:
         t = prefix + str(self.members[0]) if len(self.members) == 1 else \
             "Union[" + ", ".join(prefix + str(m) for m in self.members) + "]"
         if self.many:
             return f"List[{t}]"
+        if self.mapping:
+            return f"Dict[str, {t}]"
         return f"Optional[{t}]" if self.optional else t
 
 
@@ -743,8 +746,10 @@ def gen_table(rng, unions: bool = True) -> list[NCls]:
                 if unions and len(later) >= 2 and k < 0.3:
                     mem = tuple(rng.sample(later, rng.randint(2, min(3, len(later)))))
                     fields.append(DcField(nm, mem, False, al, False))
-                elif k < 0.5:
+                elif k < 0.45:
                     fields.append(DcField(nm, (rng.choice(later),), False, al, rng.random() < 0.05, many=True))
+                elif k < 0.58:
+                    fields.append(DcField(nm, (rng.choice(later),), False, al, rng.random() < 0.05, mapping=True))
                 else:
                     fields.append(DcField(nm, (rng.choice(later),), rng.random() < 0.4, al, rng.random() < 0.05))
             else:
@@ -787,6 +792,8 @@ def nfield_line(f, plain: bool) -> str:
     args = []
     if f.many:
         args.append("default_factory=list")
+    elif f.mapping:
+        args.append("default_factory=dict")
     elif f.optional:
         args.append("default=None")
     md = {}
@@ -824,6 +831,8 @@ def gen_tree(rng, table, cid: int):
             ch.append("None" if (f.nullable and rng.random() < 0.5) else rng.choice(cands))
         elif f.many:
             ch.append([gen_tree(rng, table, f.members[0]) for _ in range(rng.choice([0, 1, 1, 2]))])
+        elif f.mapping:
+            ch.append({f"k{i}": gen_tree(rng, table, f.members[0]) for i in range(rng.choice([0, 1, 1, 2]))})
         elif f.optional and rng.random() < 0.3:
             ch.append("None")
         else:
@@ -839,6 +848,8 @@ def tree_src(table, t, prefix: str) -> str:
             v = x
         elif isinstance(x, list):
             v = "[" + ", ".join(tree_src(table, y, prefix) for y in x) + "]"
+        elif isinstance(x, dict):
+            v = "{" + ", ".join(f"{k!r}: {tree_src(table, y, prefix)}" for k, y in x.items()) + "}"
         else:
             v = tree_src(table, x, prefix)
         parts.append(f"{f.name}={v}")
@@ -890,6 +901,8 @@ def walk(table, ns, t, inst, plain, members, outer, avail, mode: str, hits: dict
                 defaults[f.name] = eval(f.dsrc, ns)()
         elif f.many:
             defaults[f.name] = []
+        elif f.mapping:
+            defaults[f.name] = {}
         elif f.optional:
             defaults[f.name] = None
     sub = {}
@@ -897,6 +910,9 @@ def walk(table, ns, t, inst, plain, members, outer, avail, mode: str, hits: dict
         if isinstance(x, list):
             sub[f.name] = [walk(table, ns, y, iy, py, f.members, cls_flags(c), avail2, mode, hits, codec)
                            for y, iy, py in zip(x, getattr(inst, f.name), plain[f.name])]
+        elif isinstance(x, dict):
+            sub[f.name] = {k: walk(table, ns, y, getattr(inst, f.name)[k], plain[f.name][k], f.members, cls_flags(c), avail2,
+                                   mode, hits, codec) for k, y in x.items()}
         elif isinstance(f, DcField) and not isinstance(x, str):
             sub[f.name] = walk(table, ns, x, getattr(inst, f.name), plain[f.name], f.members, cls_flags(c), avail2, mode, hits, codec)
     return project(e, fields, defaults, inst, plain, sub)
@@ -927,7 +943,7 @@ Definition ccase_ok (c: list cls * (nat * node) * option ns * option pv * bool) 
 
 def coq_dcfield(f: DcField) -> str:
     al = "None" if f.alias is None else f"(Some {coq_str(f.alias)})"
-    d = "(DFac (POpq 1))" if f.many else ("(DVal PNone)" if f.optional else "DNo")   # [] is POpq (1 + 0)
+    d = "(DFac (POpq 1))" if (f.many or f.mapping) else ("(DVal PNone)" if f.optional else "DNo")   # [] is POpq (1 + 0)
     return f"(P {coq_str(f.name)} {al} {'TyOptional' if f.optional else 'TyPlain'} false {d} {coq_bool(f.omit)})"
 
 
@@ -956,6 +972,9 @@ def coq_node(table, t, inst, plain, enc) -> str:
         elif isinstance(x, list):
             parts.append("(NList " + coq_list(coq_node(table, y, iy, py, enc)
                                               for y, iy, py in zip(x, getattr(inst, f.name), plain[f.name])) + ")")
+        elif isinstance(x, dict):
+            parts.append("(NDict " + coq_list(f"({coq_str(k)}, {coq_node(table, y, getattr(inst, f.name)[k], plain[f.name][k], enc)})"
+                                              for k, y in x.items()) + ")")
         else:
             parts.append(coq_node(table, x, getattr(inst, f.name), plain[f.name], enc))
     return f"(NObj {cid} {coq_list(parts)})"
@@ -1289,7 +1308,7 @@ def run(ctx: vlib.Ctx):
         "lattice: fixed 6-field family x every (call, Config.dialect, Config) namespace triple (thorough: all 21168, "
         "quick: slice); nested: class tables of 2-5 classes (mixin subclasses, plain dataclasses with a Config, plain "
         "dataclasses without Config) with independent option vectors (Config, Config.dialect, flags, lazy) defined in a "
-        "random dependency-respecting order, direct / Optional / Union[...] / List[...] dataclass fields, EVERY mixin "
+        "random dependency-respecting order, direct / Optional / Union[...] / List[...] / Dict[str, ...] dataclass fields, EVERY mixin "
         "class used as root in random call order (a shared plain class meets its first builder through different "
         "owners), random instance trees, root keyword arguments incl. call dialect; the nested part of every output is "
         "compared with the nested class's own projection (own plain serialization when it set nothing); history: "
@@ -1341,7 +1360,8 @@ def run(ctx: vlib.Ctx):
     ctx.theorems("props/C08_project.vo", thm)
     ctx.theorems("props/C08_fix.vo", ["C08_project_fixed_full"])
     ctx.theorems("props/C08_nested.vo", ["C08_nested_partial", "C08_union_flags_refuted", "C08_forwarded_exactly", "C08_no_leak",
-                                            "C08_option_free_is_plain", "C08_codec_partial", "C08_codec_obj", "C08_codec_no_leak"])
+                                            "C08_option_free_is_plain", "C08_list_elementwise", "C08_dict_elementwise",
+                                            "C08_codec_partial", "C08_codec_obj", "C08_codec_no_leak"])
 
     if not ctx.quick():
         # second opinion: the independent checker on the compiled property files
